@@ -7,6 +7,7 @@ package main
 import (
 	"fmt"
 	"math"
+	"strings"
 
 	"gonum.org/v1/gonum/graph"
 	"gonum.org/v1/gonum/graph/path"
@@ -65,9 +66,21 @@ func (m *guardedModel) To(id int64) graph.Nodes {
 }
 
 // runDStar runs one history. Edge costs are positive integers (the D* Lite
-// papers assume 0 < c <= Inf; gonum's own tests skip zero-weight cycles).
-func runDStar(c *vrt.Ctx, r *vrt.Rand, steps int) {
+// papers assume 0 < c <= Inf; gonum's own tests skip zero-weight cycles),
+// except with zero=true: then costs are drawn from {0,0,1,2}, the heuristic
+// is nil/Null, and every signature carries the class "zero-weight" (the doc
+// comments of graph/path/dynamic only exclude negative weights).
+func runDStar(c *vrt.Ctx, r *vrt.Rand, steps int, zero bool) {
 	kind := r.Intn(4) // 0,1 grid; 2 planar; 3 random
+	if zero && kind == 2 {
+		kind = 3
+	}
+	cost := func(lo, hi int) float64 {
+		if zero {
+			return r.PickFloat(0, 0, 1, 2)
+		}
+		return float64(r.Range(lo, hi))
+	}
 	grid := kind <= 1
 	planar := kind == 2
 	var g *RG
@@ -82,12 +95,12 @@ func runDStar(c *vrt.Ctx, r *vrt.Rand, steps int) {
 			for x := 0; x < cols; x++ {
 				i := y*cols + x
 				if x+1 < cols && !r.Chance(0.15) {
-					g.setArc(i, i+1, float64(r.Range(1, 4)))
-					g.setArc(i+1, i, float64(r.Range(1, 4)))
+					g.setArc(i, i+1, cost(1, 4))
+					g.setArc(i+1, i, cost(1, 4))
 				}
 				if y+1 < rows && !r.Chance(0.15) {
-					g.setArc(i, i+cols, float64(r.Range(1, 4)))
-					g.setArc(i+cols, i, float64(r.Range(1, 4)))
+					g.setArc(i, i+cols, cost(1, 4))
+					g.setArc(i+cols, i, cost(1, 4))
 				}
 			}
 		}
@@ -116,7 +129,14 @@ func runDStar(c *vrt.Ctx, r *vrt.Rand, steps int) {
 	default:
 		n := r.Range(2, 14)
 		g = newRG(n, true, "dstar-random")
-		fillRandom(r, g, r.Uniform(0.15, 0.5), palPos, nil)
+		pal := palPos
+		if zero {
+			pal = palZero
+		}
+		fillRandom(r, g, r.Uniform(0.15, 0.5), pal, nil)
+	}
+	if zero {
+		g.Class += "-zero"
 	}
 	n := g.N
 	// room for nodes added later
@@ -144,12 +164,89 @@ func runDStar(c *vrt.Ctx, r *vrt.Rand, steps int) {
 	s, t := r.Intn(n), r.Intn(n)
 	wit := dsWitness{World: g.String(), Start: g.IDs[s], Goal: g.IDs[t]}
 
+	// Floor costs: F[i][j] is the smallest cost the arc i->j can ever take in
+	// this history (+Inf: the arc can never exist). Existing arcs start at or
+	// slightly above their floor, so heuristics derived from the floors are
+	// tight and many vertices stay unexpanded in D* Lite's queue.
+	N := g.N
+	F := make([][]float64, N)
+	for i := range F {
+		F[i] = make([]float64, N)
+		for j := range F[i] {
+			F[i][j] = pInf
+			if i == j {
+				continue
+			}
+			switch {
+			case zero:
+				F[i][j] = 0
+				if grid {
+					if i >= rows*cols || j >= rows*cols {
+						F[i][j] = pInf
+					} else if dx, dy := i%cols-j%cols, i/cols-j/cols; dx*dx+dy*dy != 1 {
+						F[i][j] = pInf
+					}
+				}
+			case grid:
+				if i < rows*cols && j < rows*cols {
+					if dx, dy := i%cols-j%cols, i/cols-j/cols; dx*dx+dy*dy == 1 {
+						F[i][j] = float64(r.Range(1, 3))
+					}
+				}
+			case planar:
+				if i < len(px) && j < len(px) {
+					F[i][j] = math.Ceil(euclid(i, j))
+				}
+			default:
+				// arcs that do not exist yet can only be added at a high
+				// cost, which keeps the floor metric close to the real
+				// distances of the sparse world
+				F[i][j] = float64(r.Range(3, 10))
+			}
+			if g.has(i, j) {
+				w := g.W[i][j]
+				switch {
+				case zero:
+					F[i][j] = 0
+				case planar:
+					// ceil(euclid) <= w by construction
+				case grid:
+					F[i][j] = math.Max(1, w-float64(r.PickInt(0, 0, 1, 2)))
+				default:
+					// tight: at most 2 below the initial cost
+					F[i][j] = math.Max(1, w-float64(r.PickInt(0, 0, 1, 2)))
+				}
+			}
+		}
+	}
+	// FD = all-pairs shortest distances over the floors (naive triple loop):
+	// an integer metric that is a lower bound of the distance in every world
+	// of the history and satisfies the triangle inequality exactly.
+	FD := make([][]float64, N)
+	for i := range FD {
+		FD[i] = append([]float64(nil), F[i]...)
+		FD[i][i] = 0
+	}
+	for k := 0; k < N; k++ {
+		for i := 0; i < N; i++ {
+			for j := 0; j < N; j++ {
+				if x := FD[i][k] + FD[k][j]; x < FD[i][j] {
+					FD[i][j] = x
+				}
+			}
+		}
+	}
 	var h path.Heuristic
 	wit.Heur = "nil"
-	switch {
-	case grid && r.Chance(0.6):
+	switch x := r.Intn(10); {
+	case zero:
+		if x < 5 {
+			wit.Heur = "NullHeuristic"
+			h = path.NullHeuristic
+		}
+	case x < 3 && grid:
 		// Manhattan distance times a factor <= 1: consistent as long as
-		// every arc joins grid neighbours and costs >= 1 (maintained below).
+		// every arc joins grid neighbours and costs >= 1 (floors are >= 1).
 		f := r.PickFloat(1, 0.5, 0.25)
 		wit.Heur = fmt.Sprintf("manhattan*%g", f)
 		h = func(a, b graph.Node) float64 {
@@ -159,7 +256,7 @@ func runDStar(c *vrt.Ctx, r *vrt.Rand, steps int) {
 			}
 			return f * (math.Abs(float64(ai%cols-bi%cols)) + math.Abs(float64(ai/cols-bi/cols)))
 		}
-	case planar && r.Chance(0.8):
+	case x < 3 && planar:
 		f := r.PickFloat(1, 1, 0.5)
 		wit.Heur = fmt.Sprintf("euclid*%g", f)
 		h = func(a, b graph.Node) float64 {
@@ -169,36 +266,44 @@ func runDStar(c *vrt.Ctx, r *vrt.Rand, steps int) {
 			}
 			return f * euclid(ai, bi)
 		}
-	case r.Chance(0.3):
+	case x < 8:
+		// the floor metric scaled by 0 < f <= 1 (exact in float64)
+		f := r.PickFloat(1, 1, 1, 0.5, 0.25)
+		wit.Heur = fmt.Sprintf("floor-metric*%g", f)
+		h = func(a, b graph.Node) float64 {
+			ai, bi := g.idx(a.ID()), g.idx(b.ID())
+			if ai < 0 || bi < 0 {
+				return 0
+			}
+			if math.IsInf(FD[ai][bi], 1) {
+				return 1e6 // never connected in any world of the history
+			}
+			return f * FD[ai][bi]
+		}
+	case x < 9:
 		wit.Heur = "NullHeuristic"
 		h = path.NullHeuristic
 	}
-	// minCost(i,j): the smallest cost the arc i->j may take in this world
-	// without breaking the consistency of the heuristic (+Inf: no such arc).
-	minCost := func(i, j int) float64 {
-		switch {
-		case grid:
-			if i >= rows*cols || j >= rows*cols {
-				return pInf
-			}
-			dx, dy := i%cols-j%cols, i/cols-j/cols
-			if dx*dx+dy*dy != 1 {
-				return pInf
-			}
-			return 1
-		case planar:
-			if i >= len(px) || j >= len(px) {
-				return pInf
-			}
-			return math.Ceil(euclid(i, j))
-		}
-		return 1
-	}
+	// minCost(i,j): the floor of the arc (+Inf: no such arc may be added).
+	minCost := func(i, j int) float64 { return F[i][j] }
 	class := g.Class + "|" + wit.Heur
 	viol := func(clause string, detail string, p []graph.Node) {
 		w := wit
 		w.Detail = detail
 		w.Path = idsOf(p)
+		if zero {
+			// one root cause (zero-weight cycles support each other's rhs
+			// values and Path()'s greedy descent can cycle): the operation
+			// is dropped from the signature, it stays in the detail
+			detail = "after " + clause + ": " + detail
+			if i := strings.IndexByte(clause, '|'); i >= 0 {
+				clause = clause[i+1:]
+			}
+			if clause != "path-does-not-terminate" {
+				clause = "wrong-plan" // suboptimal/absent plan, Step result: same root cause
+			}
+			clause = "zero-weight|" + clause
+		}
 		c.Violation("DStarLite|"+clause, detail+" world="+wit.World, w)
 	}
 
@@ -223,10 +328,10 @@ func runDStar(c *vrt.Ctx, r *vrt.Rand, steps int) {
 		ref = dist[here]
 		var p []graph.Node
 		var w float64
-		model.budget = modelBudget
+		model.budget = 50*live + 1000 // Path() makes one From query per node of the plan
 		if pn := vrt.Try(func() { p, w = d.Path() }); pn != nil {
 			if pn.Msg == runawayMsg {
-				viol(op+"|path-does-not-terminate", "Path() made more than 2e6 world-model queries (plan reconstruction cycles forever)", nil)
+				viol(op+"|path-does-not-terminate", "Path() made more than 50*n+1000 world-model queries (plan reconstruction cycles forever)", nil)
 				return ref, false
 			}
 			viol(op+"|path-panic", pn.Msg+"\n"+pn.Stack, nil)
@@ -288,11 +393,19 @@ func runDStar(c *vrt.Ctx, r *vrt.Rand, steps int) {
 		rec.Changes = append(rec.Changes, [3]float64{float64(u), float64(v), w})
 	}
 	var cut [][3]float64 // arcs removed by "cut-goal", restored later
-	stepFirst := r.Bool() // at least one Step before the first UpdateWorld
+	restricted := func() *RG { return &RG{N: live, IDs: g.IDs[:live], Directed: true, W: g.W} }
+	// MoveTo is deliberately not exercised: the property quantifies over Step
+	// and UpdateWorld only (see OUT_OF_SCOPE_OBSERVATIONS.md).
+	afterQuiet := 0 // Steps made since the last world change
+	quiet := 0      // Steps left in the current run without a world change
 	for step := 0; step < steps; step++ {
-		if (step == 0 && stepFirst) || r.Chance(0.45) {
+		if quiet == 0 && r.Chance(0.5) {
+			quiet = r.Range(1, 5)
+		}
+		if quiet > 0 {
+			quiet--
 			// ---- Step ----
-			distHere := (&RG{N: live, IDs: g.IDs[:live], Directed: true, W: g.W}).ssspTo(t)
+			distHere := restricted().ssspTo(t)
 			wit.History = append(wit.History, dsOp{Op: "step"})
 			var moved bool
 			model.budget = modelBudget
@@ -313,9 +426,27 @@ func runDStar(c *vrt.Ctx, r *vrt.Rand, steps int) {
 					return
 				}
 				here = ni
+				afterQuiet++
 			}
 			if _, ok := check("step"); !ok {
 				return
+			}
+			if r.Chance(0.4) {
+				// the documented loop calls UpdateWorld after every step,
+				// here with nothing to report
+				var none []graph.Edge
+				if r.Bool() {
+					none = []graph.Edge{}
+				}
+				wit.History = append(wit.History, dsOp{Op: "update-nothing"})
+				if pn := vrt.Try(func() { d.UpdateWorld(none) }); pn != nil {
+					viol("update|panic", pn.Msg+"\n"+pn.Stack, nil)
+					return
+				}
+				c.Eval("DStarLite.UpdateWorld|"+class+"|nothing", true)
+				if _, ok := check("update"); !ok {
+					return
+				}
 			}
 			continue
 		}
@@ -348,9 +479,9 @@ func runDStar(c *vrt.Ctx, r *vrt.Rand, steps int) {
 			world.AddNode(simple.Node(g.IDs[ni]))
 			for c := 0; c < 2; c++ {
 				a := r.Intn(ni)
-				setArc(a, ni, float64(r.Range(1, 9)), &changes, &rec)
+				setArc(a, ni, F[a][ni]+float64(r.Range(0, 5)), &changes, &rec)
 				b := r.Intn(ni)
-				setArc(ni, b, float64(r.Range(1, 9)), &changes, &rec)
+				setArc(ni, b, F[ni][b]+float64(r.Range(0, 5)), &changes, &rec)
 			}
 		default:
 			m := r.Range(1, 4)
@@ -358,6 +489,31 @@ func runDStar(c *vrt.Ctx, r *vrt.Rand, steps int) {
 			for c := 0; c < m; c++ {
 				var i, j int
 				switch x := r.Intn(10); {
+				case (x < 2 || afterQuiet >= 2 && x < 7) && len(plan) >= 2 && c == 0:
+					// near-tie: raise an arc of the plan so that the best
+					// detour wins or loses by a small margin
+					at := 0
+					if r.Chance(0.3) {
+						at = r.Intn(len(plan) - 1)
+					}
+					i, j = g.idx(plan[at].ID()), g.idx(plan[at+1].ID())
+					if i >= 0 && j >= 0 && g.has(i, j) {
+						ref := restricted().ssspTo(t)[here]
+						old := g.W[i][j]
+						g.W[i][j] = pInf
+						alt := restricted().ssspTo(t)[here]
+						g.W[i][j] = old
+						if !math.IsInf(alt, 1) && !math.IsInf(ref, 1) {
+							nw := old + (alt - ref) + float64(r.PickInt(-1, 0, 1, 1, 2, 3))
+							if nw <= old {
+								nw = old + 1
+							}
+							seen[[2]int{i, j}] = true
+							rec.Op = "update-near-tie"
+							setArc(i, j, nw, &changes, &rec)
+						}
+					}
+					continue
 				case x < 4 && len(plan) >= 2:
 					// an arc of the current plan: increases and removals here
 					// force a real replan
@@ -382,7 +538,7 @@ func runDStar(c *vrt.Ctx, r *vrt.Rand, steps int) {
 					case 0:
 						setArc(i, j, pInf, &changes, &rec) // removal
 					case 1, 2:
-						setArc(i, j, g.W[i][j]+float64(r.Range(1, 5)), &changes, &rec)
+						setArc(i, j, g.W[i][j]+r.PickFloat(1, 1, 2, 3, 5, 8), &changes, &rec)
 					case 3:
 						nw := g.W[i][j] - float64(r.Range(1, 3))
 						if nw < lo {
@@ -401,6 +557,7 @@ func runDStar(c *vrt.Ctx, r *vrt.Rand, steps int) {
 		if len(changes) == 0 {
 			continue
 		}
+		afterQuiet = 0
 		wit.History = append(wit.History, rec)
 		c.LastCase(fmt.Sprintf("DStarLite.UpdateWorld %v world0=%s", rec, wit.World))
 		model.budget = modelBudget
